@@ -888,6 +888,8 @@ func c19Run(in0 interface{}) Result {
 			}
 			return res
 		}
+	case "tls":
+		return c19RunTLS(in)
 	case "replace":
 		return c19RunReplace(in)
 	case "basicauth", "http":
@@ -931,6 +933,159 @@ func c19Depth(i *c19Info) int {
 		d = 5
 	}
 	return d
+}
+
+// ---- full path: real listener + TLS handshake with a segmented ClientHello + request ----
+type c19SegConn struct {
+	net.Conn
+	sizes []int
+	first []byte
+	done  bool
+}
+
+func (c *c19SegConn) Write(b []byte) (int, error) {
+	if c.done {
+		return c.Conn.Write(b)
+	}
+	c.done = true
+	c.first = append([]byte(nil), b...)
+	rest := b
+	for _, n := range c.sizes {
+		if n > len(rest) {
+			n = len(rest)
+		}
+		if n == 0 {
+			continue
+		}
+		if _, err := c.Conn.Write(rest[:n]); err != nil {
+			return 0, err
+		}
+		rest = rest[n:]
+		if len(rest) > 0 {
+			time.Sleep(4 * time.Millisecond)
+		}
+	}
+	if len(rest) > 0 {
+		if _, err := c.Conn.Write(rest); err != nil {
+			return 0, err
+		}
+	}
+	return len(b), nil
+}
+
+// deterministic randomness for the TLS client so that a case replays with the same hello
+type c19DetRand struct{ r *Rand }
+
+func (d c19DetRand) Read(p []byte) (int, error) {
+	for i := range p {
+		p[i] = byte(d.r.U64())
+	}
+	return len(p), nil
+}
+
+var (
+	c19TLSServer *httpserver.Server
+	c19TLSAddr   string
+)
+
+func c19GetTLSServer() (*httpserver.Server, string) {
+	if c19TLSServer != nil {
+		return c19TLSServer, c19TLSAddr
+	}
+	casket.Quiet = true
+	log.SetOutput(c19Log)
+	c := casket.NewTestController("http", "tls self_signed\n")
+	c.Key = "127.0.0.1"
+	cfg := httpserver.GetConfig(c)
+	cfg.Addr = httpserver.Address{Original: "https://127.0.0.1", Scheme: "https", Host: "127.0.0.1", Port: "0"}
+	cfg.TLS.Hostname = "127.0.0.1"
+	action, err := casket.DirectiveAction("http", "tls")
+	if err == nil {
+		err = action(c)
+	}
+	if err != nil {
+		panic("harness: tls setup: " + err.Error())
+	}
+	cfg.AddMiddleware(func(next httpserver.Handler) httpserver.Handler {
+		return handlerFunc(func(w http.ResponseWriter, r *http.Request) (int, error) {
+			m := "unknown"
+			if v, ok := r.Context().Value(httpserver.MitmCtxKey).(bool); ok {
+				m = fmt.Sprint(v)
+			}
+			w.Header().Set("X-Mitm", m)
+			w.WriteHeader(200)
+			return 0, nil
+		})
+	})
+	s, err := httpserver.NewServer("127.0.0.1:0", []*httpserver.SiteConfig{cfg})
+	if err != nil {
+		panic("harness: NewServer: " + err.Error())
+	}
+	ln, err := s.Listen()
+	if err != nil {
+		panic("harness: Listen: " + err.Error())
+	}
+	go s.Serve(ln)
+	c19TLSServer, c19TLSAddr = s, ln.Addr().String()
+	return c19TLSServer, c19TLSAddr
+}
+
+func c19RunTLS(in *c19In) Result {
+	s, addr := c19GetTLSServer()
+	c19Log.take()
+	raw, err := net.DialTimeout("tcp", addr, time.Second)
+	if err != nil {
+		panic("harness: dial tls server: " + err.Error())
+	}
+	defer raw.Close()
+	raw.SetDeadline(time.Now().Add(3 * time.Second))
+	seed := uint64(len(in.Sizes))
+	for _, n := range in.Sizes {
+		seed = seed*1000003 + uint64(n)
+	}
+	sc := &c19SegConn{Conn: raw, sizes: in.Sizes}
+	tc := tls.Client(sc, &tls.Config{InsecureSkipVerify: true, ServerName: "127.0.0.1", Rand: c19DetRand{NewRand(seed)},
+		CurvePreferences: []tls.CurveID{tls.X25519, tls.CurveP256}, NextProtos: []string{"http/1.1"}, MaxVersion: tls.VersionTLS12})
+	ok := false
+	mitm := ""
+	var rec *c19Info
+	if err := tc.Handshake(); err == nil {
+		fmt.Fprintf(tc, "GET / HTTP/1.1\r\nHost: 127.0.0.1\r\nUser-Agent: %s\r\n\r\n", string(c19Hex(in.UA)))
+		if resp, err := http.ReadResponse(bufio.NewReader(tc), nil); err == nil {
+			io.Copy(io.Discard, resp.Body)
+			ok = resp.StatusCode == 200
+			mitm = resp.Header.Get("X-Mitm")
+		}
+	}
+	if info, have := httpserver.VerifC19HelloInfoOf(s, raw.LocalAddr().String()); have {
+		rec = c19InfoOf(info)
+	}
+	tc.Close()
+	wire := sc.first
+	direct := &c19Info{}
+	bodyLen := -1
+	if len(wire) >= 5 {
+		bodyLen = int(wire[3])<<8 | int(wire[4])
+		if len(wire) >= 5+bodyLen {
+			c19Try(func() { direct = c19InfoOf(httpserver.VerifC19ParseRawClientHello(wire[5 : 5+bodyLen])) })
+		}
+	}
+	sig := "tls:safe-segmentation"
+	cum := 0
+	for _, n := range in.Sizes {
+		cum += n
+		if bodyLen >= 0 && cum >= 5 && cum < 5+bodyLen {
+			sig = "conn:read-ends-inside-record"
+		}
+	}
+	logs := c19Log.take()
+	res := Result{Term: cApp("CTls", cBytes(wire), cNatList(in.Sizes), cBool(ok), c19OptInfo(rec), direct.term()),
+		Obs: map[string]interface{}{"ok": ok, "mitm": mitm, "recorded": rec, "direct": direct, "hello_record_len": len(wire)},
+		Sig: sig, Nontrivial: ok, Class: sig, Key: sig + fmt.Sprint(in.Sizes)}
+	if strings.Contains(logs, "panic") {
+		res.Direct = "TLS connection handling panicked: " + c19Trunc(logs, 300)
+	}
+	return res
 }
 
 // ---- replacer ----
@@ -1468,7 +1623,7 @@ func c19Gen(r *Rand, tier string) []interface{} {
 			add(&c19In{Kind: "parse", Data: c19H(b[:n])})
 		}
 	}
-	for i := 0; i < 700*mult; i++ {
+	for i := 0; i < 500*mult; i++ {
 		var base []byte
 		if r.Chance(50) {
 			base = c19Hex(c19Seeds[r.Intn(len(c19Seeds))].hex)
@@ -1477,7 +1632,7 @@ func c19Gen(r *Rand, tier string) []interface{} {
 		}
 		add(&c19In{Kind: "parse", Data: c19H(c19Mutate(r, base))})
 	}
-	for i := 0; i < 900*mult; i++ {
+	for i := 0; i < 700*mult; i++ {
 		h := c19GenHello(r)
 		if r.Chance(40) { // make sure curves/points extensions are present and last
 			h.Exts = append(h.Exts, c19Ext{K: []string{"curves", "points", "other"}[r.Intn(3)], Type: 13, Curves: []uint16{29, 23, 24}, Body: "0001"})
@@ -1604,6 +1759,15 @@ func c19Gen(r *Rand, tier string) []interface{} {
 			}
 		}
 		add(&c19In{Kind: "conn", Data: c19H(wire), Sizes: sizes})
+	}
+
+	// --- full path: real TLS handshakes with the ClientHello written in pieces
+	tlsSizes := [][]int{{}, {1}, {4}, {2, 2}, {1, 1, 1, 1}, {3, 1}, {100000}, {5}, {6}, {10}, {4, 1}, {4, 100}, {120}, {1, 1, 1, 1, 1}}
+	for _, sz := range tlsSizes {
+		add(&c19In{Kind: "tls", Sizes: sz, UA: hx(c19Seeds[r.Intn(len(c19Seeds))].ua)})
+	}
+	for i := 0; i < 3*mult; i++ {
+		add(&c19In{Kind: "tls", Sizes: []int{r.Range(1, 4), r.Range(1, 300)}, UA: hx("Mozilla/5.0 Firefox/55.0")})
 	}
 
 	// --- Link headers from upstream
